@@ -86,17 +86,17 @@ def minimal_deviations(devs):
     return clusters
 
 
-def run_walk(ctx: Ctx, rep: RuleReport, rule: str, label, rel, entry, param, schema_fn, skip, caller, marks=None, mark_tags=None):
+def run_walk(ctx: Ctx, rep: RuleReport, rule: str, label, rel, entry, param, schema_fn, skip, caller, marks=None, mark_tags=None, region=None, local_root=False):
     fi = ctx.p.maybe_func(rel, entry)
     if fi is None:
         raise AnalysisError(f"{rule}: walker entry {rel}::{entry} vanished")
-    if param not in [a.arg for a in fi.node.args.args]:
+    if param not in [a.arg for a in fi.node.args.args] and not (local_root and any(isinstance(n, ast.Name) and n.id == param and isinstance(n.ctx, ast.Store) for n in ast.walk(fi.node))):
         raise AnalysisError(f"{rule}: {entry} no longer has the node parameter '{param}'")
     root = ctx.p.maybe_func(rel, caller)
     if root is None or fi.key not in reachable_functions(ctx.p, [root]):
         raise AnalysisError(f"{rule}: {entry} is no longer reached from {caller} (the walker that feeds the text changed)")
     ex = Extractor(ctx, opaque_subtree=OPAQUE, mark_tags=mark_tags or {})
-    pr = Product(ex, schema_fn(), marks_expected=marks or {}, skip_sinks=skip)
+    pr = Product(ex, schema_fn(), marks_expected=marks or {}, skip_sinks=skip, region=region)
     devs, stats = pr.run(fi, param)
     rep.unit(fi.key)
     mins = minimal_deviations(devs)
